@@ -17,6 +17,8 @@ import Pithos.Lemmas.PartStoreCache
 import Pithos.Lemmas.PartStoreOutbox
 import Pithos.Lemmas.PartStoreEC
 import Pithos.Model.PartStoreToy
+import Pithos.Model.OutboxRead
+import Pithos.Gen.OutboxRead
 
 namespace Pithos.C15
 open Pithos.Codec Pithos.PartStore
@@ -394,5 +396,101 @@ theorem ec_over_outbox_heal_without_tx_panics :
         [.get false 0]
       = [.got (.ok ⟨[], false, []⟩) true] := by
   decide
+
+/-! ## reads of the outbox store that race with commits and worker passes (statement level)
+
+`StoreSpec` treats a read as one step (what a SQLite read transaction gives). Under statement-level
+visibility the read is the program of `Pithos.OutboxRead`; its decisions are regenerated from outbox.go on
+every run (`Pithos.Gen.OutboxRead`) and the real store is driven through divided reads
+(`verifx.StaleRepo`, c15_race.go). "With or without a transaction" is part of C15's statement: both read
+paths must be the same program. -/
+
+section race
+open OutboxRead
+
+/-- **T1 obligation.** Both read paths, as they are in the source now: no entry → inner store; delete entry →
+not found; the entry vanished before the second statement → RE-EVALUATE (`continue`); the same two
+statements; at most `maxGetPartRaceRetries` rounds, then an error. -/
+theorem extracted_read_paths_reevaluate :
+    Gen.OutboxRead.txRead =
+      [("lastEntry == nil", "serve-inner"), ("lastEntry.Operation == partOutboxEntry.DeletePartOperation", "not-found"),
+       ("!entryExists", "retry"), ("firstChunk != nil", "stream-entry"), ("tail", "empty-part")] ∧
+    Gen.OutboxRead.txFreeRead =
+      [("lastEntry == nil", "serve-inner"), ("lastEntry.Operation == partOutboxEntry.DeletePartOperation", "not-found"),
+       ("!entryExists", "retry"), ("firstChunk == nil", "empty-part"), ("tail", "stream-entry")] ∧
+    Gen.OutboxRead.txReadLookups = ["FindLastPartOutboxEntryByPartId", "FindPartOutboxEntryChunkByIndexWithEntryPresence"] ∧
+    Gen.OutboxRead.txFreeReadLookups = Gen.OutboxRead.txReadLookups ∧
+    Gen.OutboxRead.txReadAfterLoop = "fail-vanished" ∧ Gen.OutboxRead.txFreeReadAfterLoop = "fail-vanished" ∧
+    Gen.OutboxRead.maxGetPartRaceRetries = maxRetries := by
+  decide
+
+theorem extracted_on_vanished :
+    onVanishedOf Gen.OutboxRead.txRead = .retry ∧ onVanishedOf Gen.OutboxRead.txFreeRead = .retry := by
+  decide
+
+/-- **with or without a transaction: the same read.** Under every interleaving of commits and worker
+passes between the first statement and the rest, the read without a transaction returns what the read
+with a transaction returns (the programs regenerated from the two paths are the same program). -/
+theorem txfree_read_agrees_with_transactional_read (s : St) (evs : List Ev) :
+    readSplit (onVanishedOf Gen.OutboxRead.txFreeRead) s evs = readSplit (onVanishedOf Gen.OutboxRead.txRead) s evs := by
+  rw [extracted_on_vanished.1, extracted_on_vanished.2]
+
+theorem mem_of_getLast? {α : Type} : ∀ (l : List α) (a : α), l.getLast? = some a → a ∈ l
+  | [], _, h => by cases h
+  | [x], a, h => by simp at h; simp [h]
+  | x :: y :: t, a, h => by
+    rw [List.getLast?_cons_cons] at h
+    exact List.mem_cons_of_mem _ (mem_of_getLast? (y :: t) a h)
+
+/-- the statements after a first statement that ran in the SAME state return the current value —
+whatever the reader would do with a vanished entry (nothing vanishes without an event in between) -/
+theorem rest_at_lookup_current (act : OnVanished) (fuel : Nat) (s : St) : rest act fuel s.lookup s = ofOpt s.abs := by
+  unfold St.lookup St.abs
+  cases hl : s.queue.getLast? with
+  | none => cases fuel <;> rfl
+  | some e =>
+    have hmem := mem_of_getLast? _ _ hl
+    have hany : s.queue.any (·.seq == e.seq) = true := List.any_eq_true.2 ⟨e, hmem, beq_self_eq_true _⟩
+    unfold rest
+    cases hp : e.isPut <;> simp [hany, applyEntry, hp, ofOpt]
+
+/-- **an undivided read returns what the part holds** (newest pending entry, else the inner store) -/
+theorem plain_read_current (act : OnVanished) (s : St) : read act s = ofOpt s.abs :=
+  rest_at_lookup_current act _ s
+
+/-- **divided_read_current_at_an_end_partial** ("after a vanished entry the lookup is retried"). A read whose
+first statement saw a pending entry and whose remaining statements run after arbitrary commits and worker
+passes returns the value the part held at its first statement — or, when that entry has been flushed in
+between, re-evaluates and returns the value the part holds at its end. (Partial: the case "first
+statement saw no entry", where the inner store is read later, is tied and judged but not proved.) -/
+theorem divided_read_current_at_an_end_partial (s : St) (evs : List Ev) (e : OutboxRead.Entry) (h : s.lookup = some e) :
+    readSplit .retry s evs = ofOpt s.abs ∨ readSplit .retry s evs = ofOpt (s.run evs).abs := by
+  have habs : s.abs = applyEntry s.inner e := by
+    unfold St.abs; unfold St.lookup at h; rw [h]
+  unfold readSplit
+  rw [h, habs]
+  show rest .retry (7) (some e) (s.run evs) = _ ∨ _
+  unfold rest
+  cases hp : e.isPut with
+  | false => left; simp [applyEntry, hp, ofOpt]
+  | true =>
+    simp only [Bool.not_true, Bool.false_eq_true, if_false]
+    by_cases hq : (s.run evs).queue.any (·.seq == e.seq) = true
+    · left; simp [hq, applyEntry, hp, ofOpt]
+    · right
+      simp only [hq, Bool.false_eq_true, if_false]
+      exact rest_at_lookup_current .retry 6 (s.run evs)
+
+/-- **Witness (what the seeded change C15-4 does).** The entry the reader saw is flushed, a newer put is
+pending: a reader that serves the inner store instead of re-evaluating returns the older version, the
+program of the code returns the newer one — the two read paths would disagree. -/
+theorem serve_inner_misses_newer_pending_write :
+    readSplit .serveInner (({} : St).apply (.put [1])) [.step, .put [2]] = .found [1] ∧
+    readSplit .retry (({} : St).apply (.put [1])) [.step, .put [2]] = .found [2] ∧
+    readSplit .serveInner (({} : St).apply (.put [1])) [.step, .del] = .found [1] ∧
+    readSplit .retry (({} : St).apply (.put [1])) [.step, .del] = .notFound := by
+  decide
+
+end race
 
 end Pithos.C15
